@@ -87,8 +87,8 @@ package graphalg
 // intersect inside the arrays: every processed node (idom != -1) points to
 // a processed node that is itself or has a larger post-order number.
 //@ spec chainOK(idom []int, poNum []int) bool = len(poNum) == len(idom) &&
-//@     (forall x in 0..len(idom) {idom[x]} :: idom[x] != -1 ==> 0 <= idom[x] && idom[x] < len(idom) && (idom[x] == x || poNum[idom[x]] > poNum[x])) &&
-//@     (forall x in 0..len(idom), y in 0..len(idom) {idom[x], idom[y]} :: idom[x] == y ==> idom[y] != -1)
+//@     (forall x in 0..len(idom) @[idom[x]] :: idom[x] != -1 ==> 0 <= idom[x] && idom[x] < len(idom) && (idom[x] == x || poNum[idom[x]] > poNum[x])) &&
+//@     (forall x in 0..len(idom), y in 0..len(idom) @[idom[x], idom[y]] :: idom[x] == y ==> idom[y] != -1)
 // isect: the two-finger walk as a function; foldI: the value the inner
 // loop of IDom computes for one node from its predecessor list.
 //@ spec isect(idom []int, poNum []int, b1 int, b2 int) int =
